@@ -597,8 +597,6 @@ func (c *Canary) handleTCP(eh *ethernet.Frame, iph *ipv4.Header, data []byte) er
 		// our FIN is now acknowledged then enter FIN-WAIT-2 and continue
 		// processing in that state.
 		state.State = SocketFinWait2
-	} else if state.State == SocketFinWait2 {
-		state.State = SocketTimeWait
 	}
 
 	if state.State == SocketEstablished ||
